@@ -680,8 +680,8 @@ def sb_queries(cfg: dict) -> list[tuple[str, tuple]]:
     qs.append(("runner_contexts[all]", ("ctxs",)))
     for part in cfg.get("partials", ("r", "r2", "zz")):
         qs.append((f"matching_runner_contexts[{part}]", ("match", part)))
-    for which in ("all", "first", "tail"):
-        for batch in (1, 100):
+    for which in cfg.get("range_windows", ("all", "first", "tail")):
+        for batch in cfg.get("range_batches", (1, 100)):
             qs.append((f"invocations_in_timerange[{which},batch={batch}]", ("inv_range", which, batch)))
             qs.append((f"history_in_timerange[{which},batch={batch}]", ("hist_range", which, batch)))
     for w in (None, 0, 2):
@@ -1039,6 +1039,11 @@ _sb("sb/history-contexts", _SB_HIST, 3, 4, only_queries=("invocation", "children
                                                          "runner", "matching", "invocations_in", "history_in", "invocation_ids"))
 _sb("sb/workflows", _SB_WF, 4, 5, only_queries=("invocation", "children", "result", "exception", "history", "workflow",
                                                "runner", "matching", "invocations_in", "history_in", "invocation_ids"))
+# history rows with equal time stamps (a clock coarser than the writes: frozen clock, a batch of ids gets one stamp), paged with
+# small batch sizes: every (invocation, status) pair is written at most once (the SQLite key is invocation + stamp + status)
+_sb("sb/history-equal-stamps", [("up", 0), ("up", 1), ("up", 2), ("hists", (0, 1, 2), "REGISTERED", "r1"),
+                                ("hists", (0, 1), "PENDING", "r2"), ("hist", 2, "RUNNING", "r3")], 4, 6, timed=True,
+    range_windows=("all",), range_batches=(1, 2, 100), only_queries=("history[", "history_in_timerange", "invocations_in_timerange"))
 # purge from any state, every query except the three recorded purge divergences (their own probes below)
 _sb("sb/purge-rest", [("up", 1), ("res", 1, "v1"), ("exc", 1, "value"), ("hist", 1, "PENDING", "r2"), ("wfset", 0, "k1", "v1"),
                       ("wfrun", 2), ("wfsub", 0, 1), ("purge",)], 4, 5, free_purge=True,
